@@ -17,7 +17,7 @@ META = dict(
                "qucumber/callbacks/metric_evaluator.py: MetricEvaluator.on_epoch_end, get_value, __len__",
                "qucumber/callbacks/observable_evaluator.py: ObservableEvaluator.on_epoch_end, get_value, __len__",
                "qucumber/nn_states/neural_state.py: fit (stop handling)"],
-    bounds=dict(quick="sequences of 5 evaluations (all real values, incl. zeros / equal / sign changes), tolerance >= 0 real, patience 1..3, evaluator and stopper periods in {1,2}, criteria relative / absolute / variance",
+    bounds=dict(quick="sequences of 5 evaluations (all real values, incl. zeros / equal / sign changes), tolerance >= 0 real, patience 1..3, evaluator and stopper periods in {1,2} plus (2,3),(3,2), criteria relative / absolute / variance in any spelling; mutable metric values",
                 thorough="7 evaluations, patience 1..5, periods in {1,2,3}"),
     outside=["the statistics behind ObservableEvaluator (System.statistics is scripted)", "longer runs than the bound"],
     stubs=["metric functions / System.statistics -> scripted symbolic sequences", "numerics of training stubbed as in C12"],
